@@ -20,14 +20,18 @@ LEVEL = 'model_checking'
 U = [b'a', b'a\x00', b'ab', b'b', b'b\x00\x00']
 SIZES = {b'a': 2, b'a\x00': 0, b'ab': 3, b'b': 1, b'b\x00\x00': 2}
 OUTSIDE = b'zz'
-SUBSETS = {'S_ab': (b'a', b'b'), 'S_mid': (b'ab',), 'S_all': tuple(U), 'S_z': (b'a\x00', b'b\x00\x00', b'b')}
+# 'S_dup' names clients twice (two overlapping groups concatenated): a subset is a SET of clients
+SUBSETS = {'S_ab': (b'a', b'b'), 'S_mid': (b'ab',), 'S_all': tuple(U), 'S_z': (b'a\x00', b'b\x00\x00', b'b'),
+           'S_dup': (b'b', b'a', b'ab', b'a', b'b')}
 
 
 def make_table(seed=0):
   table, off = {}, 1 + seed % 5
   for cid in U:
     n = SIZES[cid]
-    table[cid] = {'x': np.arange(off, off + n, dtype=np.int32), 't': np.zeros((n,), dtype=np.int32)}
+    x = np.arange(off, off + n, dtype=np.int32)
+    # 'm': a 2-D feature in Fortran (column-major) memory order, as np.asfortranarray / a transpose / pandas hand out
+    table[cid] = {'x': x, 't': np.zeros((n,), dtype=np.int32), 'm': np.asfortranarray(np.stack([x, x * 2 + 1], axis=1))}
     off += n
   return table
 
@@ -38,8 +42,16 @@ def _tag(d):
   return f
 
 
+def _tag_inplace(d):
+  """A batch preprocessing fn that modifies the dict it is given (the library documents that it guards against these)."""
+  def f(ex):
+    ex['t'] = ex['t'] * 10 + d
+    return ex
+  return f
+
+
 CF = {1: lambda cid, ex: {**ex, 't': ex['t'] * 10 + 1}, 2: lambda cid, ex: {**ex, 't': ex['t'] * 10 + 2}}
-BF = {3: _tag(3), 4: _tag(4)}
+BF = {3: _tag(3), 4: _tag_inplace(4)}
 
 
 class Ref:
@@ -125,7 +137,14 @@ def _ex(ds, what, nc):
   for b in ds.padded_batch(batch_size=2):
     m = np.asarray(b['__mask__'])
     bt += np.asarray(b['t'])[m].tolist()
-  return (np.asarray(raw['x']).tolist(), np.asarray(raw['t']).tolist(), np.asarray(allx['t']).tolist(), bt)
+  # a plain batch that holds the whole client (one slice covering every row), then the padded view once more
+  whole = [v for b in ds.batch(batch_size=8) for v in np.asarray(b['t']).tolist()]
+  require(whole == bt, what + ': batch(batch_size=8) and padded_batch(batch_size=2) disagree on the preprocessed examples', bt, whole,
+          case=nc)
+  again = [v for b in ds.padded_batch(batch_size=2) for v in np.asarray(b['t'])[np.asarray(b['__mask__'])].tolist()]
+  require(again == bt, what + ': a second pass over the client gives other preprocessed examples', bt, again, case=nc)
+  return (np.asarray(raw['x']).tolist(), np.asarray(raw['t']).tolist(), np.asarray(allx['t']).tolist(), bt,
+          np.asarray(allx['m']).tolist())
 
 
 def observe(fd, ref, what, nc, light=False):
@@ -136,7 +155,7 @@ def observe(fd, ref, what, nc, light=False):
 
   def expect_examples(cid):
     n = len(table[cid]['x'])
-    return (table[cid]['x'].tolist(), [ct] * n, [bt] * n, [bt] * n)
+    return (table[cid]['x'].tolist(), [ct] * n, [bt] * n, [bt] * n, [[int(v), int(v) * 2 + 1] for v in table[cid]['x']])
   require(fd.num_clients() == len(ids), what + ': num_clients', len(ids), fd.num_clients(), case=nc)
   got_ids = list(fd.client_ids())
   require(sorted(got_ids) == ids and len(got_ids) == len(ids), what + ': client_ids', [i.hex() for i in ids],
